@@ -17,6 +17,7 @@ import (
 
 type BFSDef struct {
 	Name     string
+	Family   string         // scenario family run for every transition ("seq" if empty)
 	Base     map[string]any // seq params shared by every state: fix, init, cap, tag09 ...
 	Alphabet []string
 	Depth    int
@@ -61,6 +62,7 @@ func (d *BFSDef) moves() []string {
 }
 
 type expandReq struct {
+	Family   string         `json:"family"`
 	Base     map[string]any `json:"base"`
 	Prefix   []string       `json:"prefix"`
 	Alphabet []string       `json:"alphabet"`
@@ -106,7 +108,11 @@ func runExpand(j Job) JobResult {
 			break
 		}
 		ops := append(append([]string{}, req.Prefix...), op)
-		sc := seqScenario(seqParams(req.Base, ops))
+		mk := seqScenario
+		if req.Family != "" && req.Family != "seq" {
+			mk = Families[req.Family]
+		}
+		sc := mk(seqParams(req.Base, ops))
 		r := RunOnce(sc, nil, false, nil)
 		c := childRes{Op: op, Steps: r.Steps, EngineErr: r.EngineErr}
 		if r.EngineErr != "" {
@@ -161,7 +167,7 @@ func RunBFS(def *BFSDef, deadline time.Time) *BFSStats {
 	}
 	all := []stateAt{{nil, 0}}
 	// the root's own hash comes back as the child of a "nop"
-	rootJob := Job{Family: "seq-expand", Params: map[string]any{"base": def.Base, "prefix": []string{}, "alphabet": []string{"nop"}}}
+	rootJob := Job{Family: "seq-expand", Params: map[string]any{"family": def.Family, "base": def.Base, "prefix": []string{}, "alphabet": []string{"nop"}}}
 	rr, err := runJobs([]Job{rootJob}, 1)
 	if err != "" || len(rr) != 1 || rr[0].EngineErr != "" {
 		st.EngineErrs = append(st.EngineErrs, "root: "+err+fmt.Sprint(rr))
@@ -192,7 +198,7 @@ func RunBFS(def *BFSDef, deadline time.Time) *BFSStats {
 		var jobs []Job
 		for i, pre := range frontier {
 			jobs = append(jobs, Job{ID: i, Family: "seq-expand", DeadlineUnix: deadline.Unix(),
-				Params: map[string]any{"base": def.Base, "prefix": pre, "alphabet": moves}})
+				Params: map[string]any{"family": def.Family, "base": def.Base, "prefix": pre, "alphabet": moves}})
 		}
 		results, jerr := runJobs(jobs, runtime.NumCPU())
 		if jerr != "" {
@@ -273,7 +279,7 @@ func RunBFS(def *BFSDef, deadline time.Time) *BFSStats {
 					end = len(tm)
 				}
 				jobs = append(jobs, Job{ID: len(jobs), Family: "seq-expand", DeadlineUnix: deadline.Unix(),
-					Params: map[string]any{"base": def.Base, "prefix": sa.seq, "alphabet": tm[off:end]}})
+					Params: map[string]any{"family": def.Family, "base": def.Base, "prefix": sa.seq, "alphabet": tm[off:end]}})
 			}
 		}
 		results, jerr := runJobs(jobs, runtime.NumCPU())
